@@ -81,6 +81,19 @@ class En:
         return 'En(%s,%s,%r)' % (self.name, self.d, self.vs)
 
 
+class Cor:
+    """state of a coroutine (async fn / async block after the state transform): d = state discriminant (0 unresumed,
+    1 returned, 2 panicked, >= 3 suspended at an await), ups = captured variables {idx: value}, vs = locals saved across
+    awaits {variant name: {idx: value}}; with a base name, fields never written read as fresh symbols (arbitrary state)"""
+    __slots__ = ('d', 'ups', 'vs', 'base')
+
+    def __init__(self, d, ups, vs=None, base=None):
+        self.d, self.ups, self.vs, self.base = d, dict(ups), {k: dict(v) for k, v in (vs or {}).items()}, base
+
+    def __repr__(self):
+        return 'Cor(%s,%r,%r)' % (self.d, self.ups, self.vs)
+
+
 class Ref:
     __slots__ = ('cell', 'path')
 
@@ -678,6 +691,8 @@ class Engine:
             return {'Ok': 0, 'Err': 1}[variant]
         if head == 'ControlFlow':
             return {'Continue': 0, 'Break': 1}[variant]
+        if head == 'Poll':
+            return {'Ready': 0, 'Pending': 1}[variant]
         if head == 'Ordering':
             return {'Less': 0, 'Equal': 1, 'Greater': 2}[variant]
         return self.decls.variant_index(enum_name, variant, hint)
@@ -688,7 +703,7 @@ class Engine:
         head = en.name.split('<')[0].split('::')[-1].strip()
         if head == 'Ordering':
             return zint(en.d) - 1 if not isinstance(en.d, int) else en.d - 1
-        if head in ('Option', 'Result', 'ControlFlow'):
+        if head in ('Option', 'Result', 'ControlFlow', 'Poll'):
             return en.d
         try:
             vs = self.decls.enum_variants(en.name)
@@ -778,6 +793,13 @@ class Engine:
             return En(a.name if a.name else b.name, If(c, a.d, b.d), vs, a.base or b.base, alt=a.alt)
         if isinstance(a, Abs) and isinstance(b, Abs):
             return Abs(If(c, a.t, b.t), a.n)
+        if isinstance(a, Cor) and isinstance(b, Cor):
+            ups = {k: self.merge(c, a.ups.get(k), b.ups.get(k)) for k in set(a.ups) | set(b.ups)}
+            vs = {}
+            for vn in set(a.vs) | set(b.vs):
+                x, y = a.vs.get(vn, {}), b.vs.get(vn, {})
+                vs[vn] = {k: self.merge(c, x.get(k), y.get(k)) for k in set(x) | set(y)}
+            return Cor(If(c, a.d, b.d), ups, vs, a.base or b.base)
         if isinstance(a, Ref) and isinstance(b, Ref):
             if a.cell == b.cell and a.path == b.path:
                 return a
@@ -857,6 +879,12 @@ class Engine:
                 return self.sym('%s.%d' % (v.base, idx), ty, mem)
             if isinstance(v, Clo):
                 return v.caps[idx]
+            if isinstance(v, Cor):
+                if idx not in v.ups:
+                    if v.base is None:
+                        raise Unsupported('read of unset captured variable %d of a coroutine' % idx)
+                    return self.sym('%s.up%d' % (v.base, idx), ty, mem)
+                return v.ups[idx]
             if isinstance(v, I) and idx == 0:
                 return v  # newtype over an integer
             if isinstance(v, Opaque):
@@ -913,7 +941,7 @@ class Engine:
 
     def variant_name(self, enum_name, vi):
         head = enum_name.split('<')[0].split('::')[-1].strip()
-        tab = {'Option': ['None', 'Some'], 'Result': ['Ok', 'Err'], 'ControlFlow': ['Continue', 'Break']}.get(head)
+        tab = {'Option': ['None', 'Some'], 'Result': ['Ok', 'Err'], 'ControlFlow': ['Continue', 'Break'], 'Poll': ['Ready', 'Pending']}.get(head)
         if tab:
             return tab[vi]
         return self.decls.enum_variants(enum_name)[vi][0]
@@ -937,6 +965,15 @@ class Engine:
                 f = path[i + 1]
                 if isinstance(v, Opaque):
                     return v
+                if isinstance(v, Cor):
+                    got = v.vs.get(st[1], {}).get(f[1])
+                    if got is None:
+                        if v.base is None:
+                            raise Unsupported('read of a coroutine local that was not saved (%s.%d) at %s' % (st[1], f[1], where))
+                        got = self.sym('%s.%s.%d' % (v.base, st[1], f[1]), f[2], mem)
+                    v = got
+                    i += 2
+                    continue
                 if not isinstance(v, En):
                     raise Unsupported('downcast of %r at %s' % (v, where))
                 vi = self.variant_index(v.name, st[1])
@@ -973,12 +1010,29 @@ class Engine:
                 tys = dict(v.tys)
                 tys[idx] = ty
                 return Adt(v.name, fs, v.base, tys, alt=v.alt)
+            if isinstance(v, Cor):
+                cur = v.ups.get(idx)
+                if cur is None and len(path) > 1:
+                    cur = self.project(v, ('f', idx, ty), mem, guard, where)
+                ups = dict(v.ups)
+                ups[idx] = self.write_path(cur, path[1:], new, mem, guard, where)
+                return Cor(v.d, ups, v.vs, v.base)
             if v is None:
                 # building an aggregate field by field
                 return self.write_path(Adt('?', {}, None), path, new, mem, guard, where)
             if isinstance(v, I) and idx == 0 and len(path) == 1:
                 return new
             raise Unsupported('write field of %r at %s' % (v, where))
+        if st[0] == 'v' and isinstance(v, Cor):
+            f = path[1]
+            cur = v.vs.get(st[1], {}).get(f[1])
+            if cur is None and len(path) > 2:
+                if v.base is None:
+                    raise Unsupported('write into a coroutine local that was not saved at ' + where)
+                cur = self.sym('%s.%s.%d' % (v.base, st[1], f[1]), f[2], mem)
+            vs = {k: dict(x) for k, x in v.vs.items()}
+            vs.setdefault(st[1], {})[f[1]] = self.write_path(cur, path[2:], new, mem, guard, where)
+            return Cor(v.d, v.ups, vs, v.base)
         if st[0] == 'v':
             f = path[1]
             if v is None or not isinstance(v, En):
@@ -1178,6 +1232,8 @@ class FnRun:
             if isinstance(v, Opaque):
                 E.unsup(guard, 'discriminant of opaque in ' + self.where())
                 return I(z3.Int('opq!%d' % next(E.nfresh)), 'isize')
+            if isinstance(v, Cor):
+                return I(v.d, 'u32')
             if not isinstance(v, En):
                 raise Unsupported('discriminant of %r in %s' % (v, self.where()))
             return I(E.discr_value(v), 'isize')
@@ -1414,6 +1470,9 @@ class FnRun:
                 cur = self.read(st[1], mem, guard)
             except Unsupported:
                 pass
+            if isinstance(cur, Cor):
+                self.write(st[1], Cor(st[2], cur.ups, cur.vs, cur.base), mem, guard)
+                return
             ty = self.place_ty(st[1]) or (cur.name if isinstance(cur, En) else '?')
             vs = cur.vs if isinstance(cur, En) else {}
             self.write(st[1], En(ty, st[2], vs), mem, guard)
@@ -1559,6 +1618,14 @@ def _const(self, text, ty_hint=None):
     elif re.fullmatch(r'[\w:]+(?:::promoted\[\d+\])?', tn):
         t = tn
         c = self.ix.find_const(t)
+        if c is None and mp and getattr(self, '_cur_fn', None):
+            # promoted constant of an inherent method of a generic type, printed as `path::Type::<..>::m::promoted[k]`
+            # at the use site but defined as `<impl at file:line>::m::promoted[k]`: the function being executed, if its
+            # method name is the same
+            meth = tn[:-len('::' + mp.group(1))].rsplit('::', 1)[-1]
+            if self._cur_fn.endswith('::' + meth) and self.ix.find_const(self._cur_fn + '::' + mp.group(1)) is not None:
+                t = tn = self._cur_fn + '::' + mp.group(1)
+                c = self.ix.find_const(t)
     else:
         c = None
     if c is not None or re.fullmatch(r'[\w:]+(?:::promoted\[\d+\])?', tn):
